@@ -18,6 +18,7 @@ for id in $ids; do
     first=$(echo "$out" | grep -m1 "^VIOLATION" | sed 's/.*replays\///')
     nv=$(echo "$out" | grep -c "^VIOLATION")
     echo "$id: check=$chk exit=$e violations=$nv first=[$first]" | tee -a seeded/MATRIX.txt
+    [ $e -ne 0 ] && [ $e -ne 1 ] && echo "$out" | grep -m2 -E "^(ENGINE-ERROR|UNDECIDED)" | cut -c1-400 | sed "s/^/    $id: /"
   done
 done
 git -C /repo worktree remove --force "$WT"
